@@ -184,8 +184,17 @@ func familyDiscovery(t *testing.T) {
 			}
 			// ---- requests at odd instants (never exactly on a timer boundary)
 			nReq := 4 + rng.Intn(8)
+			crowd := 0
+			if sc%5 == 2 { // first a crowd of impatient clients: each gives up a few milliseconds into its wait for the initialisation
+				crowd = 140
+				nReq += crowd
+				T.stat("discovery.impatient-crowds")
+			}
 			for q := 0; q < nReq; q++ {
 				gap := []time.Duration{0, 3 * time.Second, 17 * time.Second, 45 * time.Second, 2 * time.Minute, 11 * time.Minute, 50 * time.Minute, 65 * time.Minute, 3 * time.Hour}[rng.Intn(9)]
+				if q < crowd {
+					gap = 0
+				}
 				// if the healing bound falls into this gap, probe right there
 				if !healProbed && firstHealthyHasIssuer && time.Since(t0) < healBound && time.Since(t0)+gap > healBound {
 					d0 := healBound - time.Since(t0)
@@ -197,7 +206,11 @@ func familyDiscovery(t *testing.T) {
 						gap = 0
 					}
 				}
-				time.Sleep(gap + time.Duration(100+rng.Intn(800))*time.Millisecond + time.Duration(rng.Intn(1000))*time.Microsecond)
+				if q < crowd {
+					time.Sleep(time.Duration(1+rng.Intn(3))*time.Millisecond + time.Duration(rng.Intn(1000))*time.Microsecond)
+				} else {
+					time.Sleep(gap + time.Duration(100+rng.Intn(800))*time.Millisecond + time.Duration(rng.Intn(1000))*time.Microsecond)
+				}
 				synctest.Wait()
 				probeHeal()
 				at := time.Now()
@@ -206,7 +219,13 @@ func familyDiscovery(t *testing.T) {
 				path := []string{"/x", "/x", "/favicon.ico"}[rng.Intn(3)]
 				req := httptest.NewRequest("GET", "http://app.test"+path, nil)
 				var cancel context.CancelFunc
-				if rng.Intn(3) == 0 {
+				if q < crowd {
+					g := time.Duration(2+rng.Intn(9))*time.Millisecond + 333*time.Microsecond
+					ctx, c := context.WithTimeout(req.Context(), g)
+					cancel = c
+					req = req.WithContext(ctx)
+					giveUp = at.Add(g).UnixNano()
+				} else if rng.Intn(3) == 0 {
 					g := time.Duration(1+rng.Intn(40))*time.Second + 333*time.Millisecond
 					ctx, c := context.WithTimeout(req.Context(), g)
 					cancel = c
